@@ -44,3 +44,118 @@ def parse_error(msg):
     b = BYTES_RE.search(first_line)
     word = b.group(1).replace(" ", "") if b else None
     return off, codes, word
+
+
+# ---------------------------------------------------------------- link / dispatch streams
+E10_SECTIONS = ["RDH0:", "RDH1:", "RDH2:", "RDH3:"]
+
+
+def e10_tags(first_line):
+    """sub-rule tag numbers (Model/RdhChecks.v rtag_id) named by an [E10] message"""
+    body = first_line.split("RDH sanity check failed:", 1)[-1]
+    # split into sections
+    idx = [(body.find(s), s) for s in E10_SECTIONS if body.find(s) >= 0]
+    idx.sort()
+    secs = {}
+    for k, (i, s) in enumerate(idx):
+        j = idx[k + 1][0] if k + 1 < len(idx) else len(body)
+        secs[s] = body[i:j]
+    tags = []
+    s0 = secs.get("RDH0:", "")
+    if "Header ID =" in s0:
+        tags.append(1)
+    if "Header size =" in s0:
+        tags.append(2)
+    if "FEE ID = [" in s0:
+        fee = s0[s0.find("FEE ID = ["):]
+        fee = fee[:fee.find("]")]
+        if "reserved bits =" in fee:
+            tags.append(3)
+        if "stave number =" in fee:
+            tags.append(4)
+        if "layer =" in fee:
+            tags.append(5)
+        s0 = s0.replace(fee, "")
+    if "Priority bit =" in s0:
+        tags.append(6)
+    if "system_id =" in s0:
+        tags.append(7)
+    if "reserved0 =" in s0:
+        tags.append(8)
+    s1 = secs.get("RDH1:", "")
+    if "reserved0 =" in s1:
+        tags.append(9)
+    if "BC =" in s1:
+        tags.append(10)
+    s2 = secs.get("RDH2:", "")
+    if "reserved0 =" in s2:
+        tags.append(11)
+    if "stop bit =" in s2:
+        tags.append(12)
+    if "Spare bits set in trigger_type" in s2:
+        tags.append(13)
+    s3 = secs.get("RDH3:", "")
+    if "reserved0 =" in s3:
+        tags.append(14)
+    if "detector_field =" in s3:
+        tags.append(15)
+    # dw / data format come after the last section; search the tail of the whole body
+    tail = body
+    if "dw = " in tail:
+        tags.append(16)
+    if "data format = " in tail:
+        tags.append(17)
+    return tags
+
+
+def e11_tags(first_line):
+    tags = []
+    if "pages_counter =" in first_line:
+        tags.append(20)
+    if "stop_bit =" in first_line:
+        tags.append(21)
+    if "Orbit same as previous" in first_line:
+        tags.append(22)
+    if "Orbit changed from" in first_line:
+        tags.append(23)
+    if "Trigger type changed from" in first_line:
+        tags.append(24)
+    if "FeeId changed from" in first_line:
+        tags.append(25)
+    return tags
+
+
+def canon_stat(tok):
+    """one harness StatType token -> the model driver's token"""
+    kind, _, rest = tok.partition(" ")
+    if kind == "A":
+        return "A:" + ",".join(rest.split())
+    if kind == "PANIC":
+        return "PANIC"
+    if kind == "F":
+        return "F:" + unesc(rest)[:60]
+    if kind == "O":
+        return "O:" + rest[:60]
+    msg = unesc(rest)
+    off, codes, word = parse_error(msg)
+    first = msg.split("\n")[0]
+    if "Payload error following RDH at this location" in first:
+        return "E:%X:0:-:" % off
+    code = codes[0] if codes else -1
+    tags = []
+    if code == 10:
+        tags = e10_tags(first)
+    elif code == 11:
+        tags = e11_tags(first)
+    return "E:%X:%d:%s:%s" % (off if off is not None else -1, code, word or "-", ",".join(str(t) for t in tags))
+
+
+def canon_link(line):
+    if line == "-":
+        return "-"
+    if line.startswith("DIED"):
+        return "PANIC"
+    toks = [canon_stat(t) for t in line.split(" || ")]
+    if "PANIC" in toks:
+        return "PANIC"
+    return " ".join(toks)
